@@ -363,9 +363,13 @@ def r8_mus_event_bytes(facts):
     of the two right-hand sides)."""
     out = []
     fn = facts.fn('Convert_mus2midi')
-    sws = [x for x in walk(fn.tree) if isinstance(x, dict) and x.get('k') == 'SwitchStmt' and '>> 4' in show(x.get('cond'))]
-    if not sws:
+    # the dispatch on the event type: a switch or an if / else-if chain on (a local holding) `(descriptor & mask) >> 4`
+    def is_evtype(e):
+        return e.get('k') == 'BinaryOperator' and e.get('op') == '>>' and const_of(e.get('r')) == 4
+    disp = dispatch_arms(fn, is_evtype)
+    if not disp:
         raise build.AnalysisBroken('C17.R8: event-type switch of Convert_mus2midi not found')
+    sws = [disp[0][0]]
     # the cursor: the pointer that the arms post-increment
     def incs(t):
         """(min, max) number of cursor increments along the paths of statement t; None = path leaves by goto (not counted)"""
@@ -415,24 +419,7 @@ def r8_mus_event_bytes(facts):
             if ap and ap[2] == '+=' and strip(ap[0]).get('id') == cur_id and const_of(ap[1]) is not None:
                 n_ += const_of(ap[1])
         return n_
-    arms = {}
-    cur = None
-    for it in (sws[0].get('body') or {}).get('body', []):
-        x = it
-        labs = []
-        while isinstance(x, dict) and x.get('k') in ('CaseStmt', 'DefaultStmt'):
-            if x.get('k') == 'CaseStmt':
-                labs.append(x.get('value'))
-            x = x.get('sub')
-        if labs:
-            cur = labs
-            for l in labs:
-                arms[l] = []
-        if cur is not None and isinstance(x, dict):
-            for l in cur:
-                arms[l].append(x)
-            if x.get('k') == 'BreakStmt':
-                cur = None
+    arms = disp[0][1]
     n = 0
     for ty, (lo, hi) in sorted(MUS_EVENT_BYTES.items()):
         if ty not in arms:
